@@ -43,6 +43,10 @@ struct Scenario {
     /// C18: every transport read yields once before it returns data and never returns more than
     /// one frame, for every connection alike (see `rule`).
     yield_first: bool,
+    /// (streaming client, index of its streaming call, first gated item, other client, number of
+    /// that client's reply frames): the stream's later items only appear once the other client
+    /// has been sent that many frames.
+    stream_gate: Option<(usize, usize, usize, usize, usize)>,
 }
 
 /// Payload size for a big `Len` call: around 2^16, around 2^17, tens of kB, and (scripted clients
@@ -144,7 +148,7 @@ fn long_lived_scenario(kind: Kind, w: &mut W) -> Scenario {
     clients.push(ClientSpec { cid: 99, calls: vec![e(false), CallSpec::Fail { oneway: false }, e(false), e(false)], faults: vec![], pingpong: false, closes: false, after_quiet: true });
     let late = vec![None; clients.len()];
     let real = vec![None; clients.len()];
-    Scenario { yield_first: false, clients, late, singles: vec![], suspends: false, mode: format!("long-lived server: {n} short-lived connections one after the other, flavour {flavour}"), real }
+    Scenario { stream_gate: None, yield_first: false, clients, late, singles: vec![], suspends: false, mode: format!("long-lived server: {n} short-lived connections one after the other, flavour {flavour}"), real }
 }
 
 fn gen_scenario(kind: Kind, w: &mut W) -> Scenario {
@@ -295,9 +299,59 @@ fn gen_scenario(kind: Kind, w: &mut W) -> Scenario {
             }
         }
     }
-    let mode = format!("seeded cfg={:?} service_suspends={suspends}", w.cfg);
     real.resize(clients.len(), None);
-    Scenario { yield_first, clients, late, singles, suspends, mode, real }
+    // C10: in one world of three, a stream's later items are triggered by another client's calls
+    // having been answered (a subscriber of a notified state and the client that sets it)
+    let mut stream_gate = None;
+    if kind == Kind::C10 && t.draw(3) == 2 {
+        // make sure the world has a scripted streaming client and a scripted plain one
+        if !clients.iter().enumerate().any(|(i, c)| real[i].is_none() && c.calls.iter().any(|k| matches!(k, CallSpec::Stream { flags, .. } if !flags.is_empty()))) {
+            let n_items = 1 + t.draw(4);
+            let flags = (0..n_items).map(|_| t.draw(3) as u8).collect();
+            let mut calls = vec![CallSpec::Stream { flags, ends: t.draw(4) != 3 }];
+            for _ in 0..t.draw(3) {
+                calls.push(gen_call(t, false, true));
+            }
+            clients.push(ClientSpec { cid: 10 + clients.len() as u32, calls, faults: vec![], pingpong: false, closes: t.draw(2) == 1, after_quiet: false });
+            late.push(None);
+            real.push(None);
+        }
+        if !clients.iter().enumerate().any(|(i, c)| real[i].is_none() && c.faults.is_empty() && !c.calls.iter().any(|k| matches!(k, CallSpec::Stream { .. } | CallSpec::Deferred { .. })) && c.calls.iter().any(|k| !k.oneway())) || clients.len() < 2 {
+            let mut calls = vec![CallSpec::Echo { pad: t.draw(20), oneway: false }];
+            for _ in 0..t.draw(3) {
+                calls.push(gen_call(t, false, true));
+            }
+            clients.push(ClientSpec { cid: 10 + clients.len() as u32, calls, faults: vec![], pingpong: t.draw(3) == 2, closes: t.draw(2) == 1, after_quiet: false });
+            late.push(None);
+            real.push(None);
+        }
+        let streamers: Vec<(usize, usize)> = clients
+            .iter()
+            .enumerate()
+            .filter(|(i, _)| real[*i].is_none())
+            .flat_map(|(i, c)| c.calls.iter().enumerate().filter(|(_, k)| matches!(k, CallSpec::Stream { flags, .. } if !flags.is_empty())).map(move |(j, _)| (i, j)))
+            .collect();
+        let plain: Vec<usize> = clients
+            .iter()
+            .enumerate()
+            .filter(|(i, c)| real[*i].is_none() && c.faults.is_empty() && !c.calls.iter().any(|k| matches!(k, CallSpec::Stream { .. } | CallSpec::Deferred { .. })) && c.calls.iter().any(|k| !k.oneway()))
+            .map(|(i, _)| i)
+            .collect();
+        if !streamers.is_empty() && !plain.is_empty() {
+            let (a, j) = streamers[t.draw(streamers.len())];
+            let cands: Vec<usize> = plain.iter().copied().filter(|x| *x != a).collect();
+            if !cands.is_empty() {
+                let x = cands[t.draw(cands.len())];
+                let owed = reference_output(clients[x].cid, &clients[x].calls).0.len();
+                let nflags = if let CallSpec::Stream { flags, .. } = &clients[a].calls[j] { flags.len() } else { 0 };
+                let from = t.draw(nflags);
+                let nuls = if t.draw(2) == 0 { owed } else { 1 + t.draw(owed) };
+                stream_gate = Some((a, j, from, x, nuls));
+            }
+        }
+    }
+    let mode = format!("seeded cfg={:?} service_suspends={suspends} stream_size_hint={} stream_gate={stream_gate:?}", w.cfg, w.stream_size_hint);
+    Scenario { stream_gate, yield_first, clients, late, singles, suspends, mode, real }
 }
 
 /// Small fixed scenarios whose interleavings are enumerated by the digits that follow on the tape
@@ -367,7 +421,7 @@ fn sys_scenario(kind: Kind, w: &mut W) -> Scenario {
         late.push(None);
     }
     let real = vec![None; clients.len()];
-    Scenario { yield_first, clients, late, singles, suspends: false, mode: format!("systematic spec={spec}"), real }
+    Scenario { stream_gate: None, yield_first, clients, late, singles, suspends: false, mode: format!("systematic spec={spec}"), real }
 }
 
 impl Prop for ServerProp {
@@ -440,6 +494,10 @@ impl Prop for ServerProp {
                 reals.push(RealClient { spec: c.clone(), prog: prog.clone(), c2s: infos[i].c2s, s2c: infos[i].s2c, result });
                 world.borrow_mut().stat("real_zlink_clients");
             }
+        }
+        if let Some((a, j, from, x, nuls)) = sc.stream_gate {
+            let gate = Gate { pipe: infos[x].s2c, nuls, counter: 0 };
+            world.borrow_mut().stream_gates.push((sc.clients[a].cid, j as u32, from, gate));
         }
         {
             let mut w = world.borrow_mut();
